@@ -166,9 +166,17 @@ def obligations(tier):
                 obs.append(product_ob(prog, mk, fk, "multiply", uf, "R1xR2"))
                 for b in ("R/R", "R/1", "1/R"):
                     obs.append(product_ob(prog, mk, fk, "hadamard", uf, b))
-    impls = sorted({(c, m) for m in ("_multiply_with_measure", "_hadamard_with_measure") for c in prog.overriders(m)})
+    # one key-set obligation per (factor class, product method) as resolved through the class hierarchy: mixins / pulled-up
+    # methods change who defines an implementation, not who has one
+    fclasses = [c for c in ("ConjugateFactor", "LowRankFactor", "OneRankFactor", "LinearFactor", "ConstantFactor") if c in prog.classes]
+    impls = []
+    for c in fclasses:
+        for m in ("_multiply_with_measure", "_hadamard_with_measure"):
+            if prog.find_method(c, m) is None:
+                raise model.AnchorError(f"factor class {c} has no {m}")
+            impls.append((c, m))
     if len(impls) < 8:
-        raise model.AnchorError(f"only {len(impls)} product implementations found (expected >= 8)")
+        raise model.AnchorError(f"only {len(impls)} product implementations resolved (expected >= 8)")
     for c, m in impls:
         for uf in (False, True):
             obs.append(keyset_ob(prog, c, m, uf))
